@@ -285,3 +285,11 @@ def scalar_statements(text: str, guards=()):
         if sm:
             out.append((guards, sm.group(1), sm.group(2).strip()))
     return out
+
+
+def token_text(text):
+    """the text as the compiler tokenises it: tokens joined by one blank (None stays None).  Two spellings of one statement that
+    differ in white space *between* tokens have the same token text; a statement broken inside a number or a name has not."""
+    if text is None:
+        return None
+    return " ".join(t for _, t in tokenize(text))
